@@ -239,3 +239,25 @@ Proof.
         rewrite Ea in La. rewrite Eb in Lb.
         assert (ja = jb) by lia. subst jb. rewrite <- Ea, <- Eb. reflexivity.
 Qed.
+
+Lemma enum_children_disjoint : forall k a b x n m, In a (children k) -> In b (children k) ->
+  In x (enum n a) -> In x (enum m b) -> a = b.
+Proof.
+  intros k a b x n m Ha Hb Hxa Hxb.
+  apply in_enum_anc in Hxa. destruct Hxa as [ja [_ Ea]].
+  apply in_enum_anc in Hxb. destruct Hxb as [jb [_ Eb]].
+  apply in_children_parent in Ha. apply in_children_parent in Hb.
+  pose proof (anc_level ja x) as La. pose proof (anc_level jb x) as Lb.
+  rewrite Ea in La. rewrite Eb in Lb.
+  assert (ja = jb) by lia. subst jb. rewrite <- Ea, <- Eb. reflexivity.
+Qed.
+
+Lemma enum_not_self : forall k c n, In c (children k) -> ~ In k (enum n c).
+Proof.
+  intros k c n Hc Hx. apply in_enum_anc in Hx. destruct Hx as [j [_ Ej]].
+  apply in_children_parent in Hc. destruct Hc as [_ Hl].
+  pose proof (anc_level j k) as Hal. rewrite Ej in Hal. lia.
+Qed.
+
+Lemma enum_head : forall n k, In k (enum n k).
+Proof. intros n k. destruct n; simpl; auto. Qed.
